@@ -31,7 +31,7 @@ CHECKS = {
         design="DESIGN.md §5 C03",
         technique="Coq proof (sorting + first-match lemmas, per-method walk theorems) + rule-text correspondence + packet-walk oracle on emitted rules"),
     "C10": dict(
-        text=("36 theorems over all event sequences of the datagram state machines (Props/C10.v; incl. the end of TCP flows sharing the identifier table: a captured query is forwarded whenever one of the identifiers the cursor visits is free, finished TCP flows included — c10_query_forwarded_if_identifier_free, c10_tcp_end_releases_identifier): query relayed verbatim on a fresh "
+        text=("38 theorems over all event sequences of the datagram state machines (Props/C10.v; incl. the end of TCP flows sharing the identifier table: a captured query is forwarded whenever one of the identifiers the cursor visits is free, finished TCP flows included — c10_query_forwarded_if_identifier_free, c10_tcp_end_releases_identifier; and a per-attempt system name-server list: each attempt goes to the configured resolver or to a member of the list AS IT IS AT THAT ATTEMPT — c10_attempt_target_current, Model/DgramNs.v): query relayed verbatim on a fresh "
               "identifier, resolver target and at most 3 attempts with retry only after NET_ERRS, first reply relayed once and handler retired, "
               "reply to the recorded asker from the recorded destination, at most one datagram per query over whole runs, exact lazy expiry, "
               "no exception for any socket outcome or identifier exhaustion; WHOLE SERVER: an invariant relating handlers, dnshandlers, udphandlers and mux.channels holds in every reachable state of the real loop structure, "
@@ -69,7 +69,7 @@ CHECKS = {
         design="DESIGN.md §5 C14",
         technique="Coq proof (step machine over file-system primitives, induction over crash index / history / schedule) + primitive-trace correspondence"),
     "C16": dict(
-        text=("34 theorems over all argument texts (Props/C16.v): parse_subnetport/parse_ipport always yield a value or a usage error; "
+        text=("37 theorems over all argument texts (Props/C16.v; incl. the --listen family dispatch of cmdline.main: per family the LAST element of that family, never an element of the other family, for every --disable-ipv6 — c16_listen_dispatch, c16_listen_family, c16_listen_absent): parse_subnetport/parse_ipport always yield a value or a usage error; "
               "parse(render spec) returns the resolver's address, the given or maximal width and the port range for IPv4-form and IPv6-form hosts; "
               "width range check; every numbers-and-dots IPv4 spelling resolves to the dotted quad of its value; every accepted IPv6 spelling (any 8 words, both printers, upper case, dotted tail) resolves to the canonical text, which reads back as the same words and is a fixed point (c16_canonical_v6_full, c16_canonical_v6, symbolic sweep over the 256 zero masks); [v6]:port and name:port (c16_hostport_port_full, c16_hostport_v6_port); listen and remote specifications "
               "decompose into user/password/host/port; command line overrides the environment. Tied to /repo by running the real parsers and "
@@ -119,7 +119,7 @@ CHECKS = {
         technique="Coq proof (total decision function with explicit Crash/OsError constructors proved unreachable; consistency by case analysis over the port search) + exhaustive cross-product correspondence"),
 
     "C04": dict(
-        text=("56 theorems (Props/C04.v). Proved for every initial kernel state (foreign rules, other instances), every plan, every cut and every "
+        text=("60 theorems (Props/C04.v). Proved for every initial kernel state (foreign rules, other instances), every plan, every cut and every "
               "fault set (nat/nft/tproxy): everything not named for the session's ports is unchanged and in order at every intermediate state; a cut "
               "before GO issues no command; once no own object remains the final state is exactly the initial one; the chain-listing parse (decode as ASCII with errors='replace', split at line feeds, startswith) is exact membership for tables whose foreign rules and chain names carry ARBITRARY bytes without line feed (c04_chain_exists_exact, c04_chain_exists_bytes_exact; with a line feed in a foreign comment it can be forged: c04_listing_lf_refuted, an observation) — i.e. exact "
               "membership (sshuttle-1230 vs sshuttle-12300). The clause 'every exit path: nothing own remains and a later session can start, for every k-th failing "
